@@ -310,6 +310,11 @@ def validate(prog, cj, model, shapes, opts: Options, ref_fn=None, pre=None) -> d
     out: dict[str, Any] = {}
     x64 = prog.x64
     dtypes = _dtypes_for(prog, x64)
+    # a double-precision program whose own JAX x64 evaluation narrows to float32 internally
+    # (jax.nn.dot_product_attention computes its softmax in float32): the reference carries
+    # single-precision error itself, so the single-precision criterion applies
+    prog.meta["ref_narrow"] = bool(x64 and ref_narrow_float(cj))
+    out["ref_narrow_float"] = prog.meta["ref_narrow"]
     # declared input element types may differ (the model is authoritative for feeding)
     constraints = []
     ins = [S.fresh_input(f"x{i}", s, dt, constraints) for i, (s, dt) in enumerate(zip(shapes, dtypes))]
@@ -338,6 +343,22 @@ def validate(prog, cj, model, shapes, opts: Options, ref_fn=None, pre=None) -> d
         if g:
             mdt = onnx_sem.np_dtype_of(g[0].type.tensor_type.elem_type)
             feeds[k] = T(mdt, v.a) if S.kind_of(mdt) == v.kind else v
+    # ---- element type of every output: same class (bool / integer / float) as the JAX result, and no
+    # double-precision float where JAX (32-bit mode) returns float32; decided on ORT, not on annotations
+    if opts.replay:
+        declared = [onnx_sem.np_dtype_of(g.type.tensor_type.elem_type) if g.type.tensor_type.elem_type else None for g in model.graph.output]
+        javals = [np.dtype(v.aval.dtype) for v in cj.jaxpr.outvars]
+        if len(declared) == len(javals):
+            for i, (od, jd) in enumerate(zip(declared, javals)):
+                if od is None:
+                    continue
+                ko, kj = S.kind_of(od), S.kind_of(jd)
+                if ko != kj or (not x64 and ko == "f" and np.dtype(od).itemsize != jd.itemsize):
+                    differs, info = replay_concrete(prog, cj, model, _test_vectors(prog, shapes, dtypes, True)[0], pos_names)
+                    if differs and "element type" in str(info.get("why")):
+                        out.update(status="violation", kind="dtype", reason=f"output {i}: model element type {od}, JAX {jd}", witness=info)
+                        return out
+                    break
     # ---- self-validation on concrete inputs
     sel = {"checked": 0, "failed": []}
     if opts.selfcheck:
@@ -350,7 +371,12 @@ def validate(prog, cj, model, shapes, opts: Options, ref_fn=None, pre=None) -> d
     jctx = jax_sem.JCtx(unroll=opts.unroll)
     jargs = list(ins)
     consts = [jax_sem.literal_T(np.asarray(c), v.aval) for c, v in zip(cj.consts, cj.jaxpr.constvars)]
-    ref_outs = jax_sem.eval_jaxpr(jctx, cj.jaxpr, consts, jargs)
+    if prog.meta.get("ref_narrow"):
+        S.IDENTITY_ROUNDINGS = {"rnd32"}
+    try:
+        ref_outs = jax_sem.eval_jaxpr(jctx, cj.jaxpr, consts, jargs)
+    finally:
+        S.IDENTITY_ROUNDINGS = set()
     try:
         onnx_outs, octx = onnx_sem.run_model(model, feeds, unroll=opts.unroll)
     except ModelInvalid as e:
@@ -500,6 +526,18 @@ def selfcheck(prog, cj, model, shapes, dtypes, pos_names, opts):
     return res
 
 
+def ref_narrow_float(cj) -> bool:
+    """does the reference jaxpr produce a floating value narrower than float64 anywhere?"""
+    for e in _all_eqns(cj.jaxpr):
+        for v in e.outvars:
+            dt = getattr(getattr(v, "aval", None), "dtype", None)
+            if dt is not None and np.dtype(dt).kind == "f" and np.dtype(dt).itemsize < 8:
+                return True
+            if dt is not None and np.dtype(dt).name == "bfloat16":
+                return True
+    return False
+
+
 def _all_eqns(jaxpr):
     for e in jaxpr.eqns:
         yield e
@@ -562,17 +600,20 @@ def replay_concrete(prog, cj, model, arrays, pos_names):
         if o.shape != j.shape:
             info["why"] = f"output {i} shape {o.shape} vs {j.shape}"
             return True, info
+        if (o.dtype.kind in "iu") != (j.dtype.kind in "iu") or (o.dtype.kind == "b") != (j.dtype.kind == "b") or (
+            not prog.x64 and j.dtype.kind == "f" and o.dtype.itemsize != j.dtype.itemsize
+        ):
+            info["why"] = f"output {i} element type: model {o.dtype}, JAX {j.dtype}"
+            return True, info
         if j.dtype.kind in "biu":
-            if o.dtype.kind == "f":
-                info["why"] = f"output {i} dtype class"
-                return True, info
             if not np.array_equal(o.astype(np.int64), j.astype(np.int64)):
                 info["why"] = f"output {i} integer/bool values differ"
                 return True, info
         else:
             o64, j64a = o.astype(np.float64), j.astype(np.float64)
             fin = np.isfinite(j64a)
-            if prog.x64:
+            strict64 = prog.x64 and not prog.meta.get("ref_narrow")
+            if strict64:
                 bad = fin & ~(np.abs(o64 - j64a) <= 1e-9 * (1 + np.abs(j64a)))
             else:
                 bad = fin & ~(np.abs(o64 - j64a) <= 1e-3 * (1 + np.abs(j64a)))
@@ -589,22 +630,34 @@ def replay_concrete(prog, cj, model, arrays, pos_names):
                             own = np.abs(j64a - r64)
                             # conditioning: a 1-ulp change of the float32 inputs is error JAX's own
                             # single-precision evaluation already carries
-                            deltas = []
-                            for sgn in (+1, -1):
-                                pert = [np.nextafter(np.asarray(a), np.asarray(sgn * np.inf, dtype=np.asarray(a).dtype)) if np.asarray(a).dtype.kind == "f" else a for a in arrays]
-                                p64 = _jax64(prog, pert)
-                                if p64 is not None and len(p64) == len(jout):
-                                    q = np.asarray(p64[i], dtype=np.float64)
-                                    if i in out_nchw and q.ndim == 4:
-                                        q = np.transpose(q, (0, 3, 1, 2))
-                                    if q.shape == r64.shape:
-                                        with np.errstate(all="ignore"):
-                                            deltas.append(np.nan_to_num(np.abs(q - r64), nan=np.inf))
-                            if len(deltas) == 2:
-                                # smooth ill-conditioning varies on BOTH sides; a step at an exactly
-                                # representable tie (round/floor/compare) is constant on one side and stays in
-                                own = np.maximum(own, np.minimum(deltas[0], deltas[1]))
-                            slack = 1e-12 if prog.x64 else 1e-5
+                            # directions: all inputs up / down, then seeded random sign patterns (a common
+                            # shift can cancel, e.g. in softmax); per direction pair the smaller of the two
+                            # sides counts: smooth ill-conditioning varies on BOTH sides, a step at an exactly
+                            # representable tie (round/floor/compare) is constant on one side and stays in
+                            drng = np.random.default_rng(11)
+                            patterns = [None] + [[drng.integers(0, 2, size=np.asarray(a).shape) * 2 - 1 for a in arrays] for _ in range(3)]
+                            for pat in patterns:
+                                deltas = []
+                                for sgn in (+1, -1):
+                                    pert = []
+                                    for ai, a in enumerate(arrays):
+                                        a = np.asarray(a)
+                                        if a.dtype.kind != "f":
+                                            pert.append(a)
+                                            continue
+                                        d = np.full(a.shape, sgn, dtype=np.int64) if pat is None else sgn * pat[ai]
+                                        pert.append(np.where(d > 0, np.nextafter(a, np.asarray(np.inf, dtype=a.dtype)), np.nextafter(a, np.asarray(-np.inf, dtype=a.dtype))).astype(a.dtype))
+                                    p64 = _jax64(prog, pert)
+                                    if p64 is not None and len(p64) == len(jout):
+                                        q = np.asarray(p64[i], dtype=np.float64)
+                                        if i in out_nchw and q.ndim == 4:
+                                            q = np.transpose(q, (0, 3, 1, 2))
+                                        if q.shape == r64.shape:
+                                            with np.errstate(all="ignore"):
+                                                deltas.append(np.nan_to_num(np.abs(q - r64), nan=np.inf))
+                                if len(deltas) == 2:
+                                    own = np.maximum(own, np.minimum(deltas[0], deltas[1]))
+                            slack = 1e-12 if strict64 else 1e-5
                             bad = bad & np.isfinite(r64) & (np.abs(o64 - r64) > 32 * own + slack * (1 + np.abs(r64)))
                 if np.any(bad):
                     info["why"] = f"output {i} float values differ beyond tolerance"
